@@ -78,6 +78,21 @@ func (in *Interp) eval(e ast.Expr, st *State) []ev {
 					return one(st, v)
 				}
 			}
+			// a captured variable that is a name for a pure expression of the enclosing function (defined once,
+			// from operands that are themselves never reassigned): its definition is evaluated in its place
+			if in.Hooks.FreeVar != nil && !in.resolvingFree[ob] {
+				if def := in.Hooks.FreeVar(ob); def != nil {
+					if in.resolvingFree == nil {
+						in.resolvingFree = map[*types.Var]bool{}
+					}
+					in.resolvingFree[ob] = true
+					res := in.eval(def, st)
+					delete(in.resolvingFree, ob)
+					if len(res) == 1 {
+						return res
+					}
+				}
+			}
 			// free variable (captured or package level)
 			name := ob.Name()
 			if ob.Pkg() != nil && ob.Parent() == ob.Pkg().Scope() {
@@ -535,6 +550,10 @@ func (in *Interp) decideEq(st *State, l, r Val, pos token.Pos) []condRes {
 	if rs, ok := r.(Sym); ok && rs.NotNil && ln {
 		return []condRes{{st, false}}
 	}
+	// an index (range key) is never equal to a negative constant
+	if negConst(l) && nonNegSym(r) || negConst(r) && nonNegSym(l) {
+		return []condRes{{st, false}}
+	}
 	a, b := l.Canon(), r.Canon()
 	if a == b {
 		// x == x holds except for NaN: a rule that models NaN answers this atom itself
@@ -559,6 +578,13 @@ func (in *Interp) decideLt(st *State, l, r Val) []condRes {
 	}
 	if l.Canon() == r.Canon() {
 		return []condRes{{st, false}}
+	}
+	// index < c for c ≤ 0 is false; c < index for negative c is true
+	if nonNegSym(l) && rok && constant.Sign(rc.V) <= 0 {
+		return []condRes{{st, false}}
+	}
+	if nonNegSym(r) && negConst(l) {
+		return []condRes{{st, true}}
 	}
 	a, b := l.Canon(), r.Canon()
 	// entailed by an order assumption already on this path: !(b <= a), or not even a <= b, or b < a
@@ -587,6 +613,13 @@ func (in *Interp) decideLe(st *State, l, r Val) []condRes {
 		return in.decide(st, "("+l.Canon()+" <= "+r.Canon()+")")
 	}
 	a, b := l.Canon(), r.Canon()
+	// c <= index for c ≤ 0 is true; index <= c for negative c is false
+	if nonNegSym(r) && lok && constant.Sign(lc.V) <= 0 {
+		return []condRes{{st, true}}
+	}
+	if nonNegSym(l) && negConst(r) {
+		return []condRes{{st, false}}
+	}
 	// a <= b is !(b < a); a < b entails it
 	return in.decideEntailed(st, "("+a+" <= "+b+")", func() (bool, bool) {
 		if v, ok := st.Assumed["("+b+" < "+a+")"]; ok {
@@ -1102,4 +1135,14 @@ func (in *Interp) inline(ft *ast.FuncType, recvFL *ast.FieldList, body *ast.Bloc
 		}
 	}
 	return out
+}
+
+func nonNegSym(v Val) bool {
+	s, ok := v.(Sym)
+	return ok && s.NonNeg
+}
+
+func negConst(v Val) bool {
+	c, ok := v.(Const)
+	return ok && c.V.Kind() == constant.Int && constant.Sign(c.V) < 0
 }
